@@ -230,7 +230,8 @@ class Cid(object):
         assert row_data is not None
         assert len(row_data) >= 2
 
-        name, value = row_data[:2]
+        # NOTE: Ignore surrounding blanks the same way rows describing fields do.
+        name, value = [item.strip() for item in row_data[:2]]
         lower_name = name.lower()
         self._location.advance_cell()
         if name == "":
